@@ -103,11 +103,6 @@ def costOfName (name tld : String) : Option Int :=
 
 def nameKey (name tld : String) : String := name ++ "." ++ tld
 
-/-- a guard inside a handler: continue iff the condition holds, otherwise the handler fails -/
-def req (c : Prop) [Decidable c] : Option Unit := if c then some () else none
-
-@[simp] theorem req_eq_some (c : Prop) [Decidable c] (u : Unit) : req c = some u ↔ c := by
-  unfold req; split <;> simp [*]
 
 /-- a name is live while it is registered and `height ≤ Expires` -/
 def isLive (s : State) (key : String) (h : Int) : Bool :=
